@@ -1,6 +1,6 @@
 SPECIFICATION Spec
 CONSTANTS
- Mols <- MolsDev
+ Mols <- MCMols
  Dev = "dropSection"
  FixedOrder = TRUE
 INVARIANT RoundTripI
